@@ -3,6 +3,13 @@
 package pfcpiface
 
 import (
+	"context"
+	"fmt"
+	"math/rand"
+	"net"
+	"sync"
+	"time"
+
 	"github.com/wmnsk/go-pfcp/ie"
 	"github.com/wmnsk/go-pfcp/message"
 )
@@ -226,6 +233,94 @@ func H_C02_session() {
 				vAssert("est2:up-fseid-differs-from-live-session", fs2.SEID != up)
 				ups = append(ups, fs2.SEID)
 			}
+		}
+	}
+}
+
+// vC02Env: an association on the thread-safe fakes (for harnesses in which
+// more than one goroutine of the agent sends on the association's socket).
+func vC02Env() (*PFCPConn, *vTConn) {
+	conn := vNewTConn(9000)
+	u := &upf{accessIP: net.IP{198, 18, 0, 1}, coreIP: net.IP{198, 19, 0, 1}, nodeID: "upf.test", dnn: "internet",
+		fteidGenerator: NewFTEIDGenerator(), datapath: &vTDatapath{creates: map[uint64]int{}, dels: map[uint64]int{}},
+		maxReqRetries: 0, respTimeout: time.Second, reportNotifyChan: make(chan uint64, 16), hbInterval: time.Hour}
+	pc := &PFCPConn{ctx: context.Background(), Conn: conn, ts: recoveryTS{local: vTS}, rng: rand.New(&vRandSource{counter: true}),
+		maxRetries: 2, store: NewInMemoryStore(), upf: u, done: make(chan string, 4), shutdown: make(chan struct{}),
+		InstrumentPFCP: &vTMetrics{}, hbReset: make(chan struct{}, 100)}
+	pc.setLocalNodeID(u.nodeID)
+	pc.nodeID.remote = "cp.test"
+	return pc, conn
+}
+
+// vC02CheckPair: the socket saw exactly the response to the peer's heartbeat
+// (sequence number s1) and the agent's own request (sequence number s2).
+func vC02CheckPair(writes [][]byte, s1, s2 uint32) string {
+	if len(writes) != 2 {
+		return fmt.Sprintf("%d datagrams written, want 2", len(writes))
+	}
+	resp, req := 0, 0
+	for _, w := range writes {
+		m, err := message.Parse(w)
+		if err != nil {
+			return "undecodable datagram written"
+		}
+		switch {
+		case m.MessageType() == message.MsgTypeHeartbeatResponse && m.Sequence() == s1:
+			resp++
+		case m.MessageType() == message.MsgTypeHeartbeatRequest && m.Sequence() == s2:
+			req++
+		}
+	}
+	if resp != 1 || req != 1 {
+		return fmt.Sprintf("the response to the peer's request was written %d times, the agent's own request %d times (want 1 and 1)", resp, req)
+	}
+	return ""
+}
+
+// H_C02_concsend: the reader goroutine answers the peer's Heartbeat Request
+// while another goroutine of the association (the heartbeat monitor) sends
+// the agent's own Heartbeat Request on the same socket - under every
+// interleaving at the socket's critical section each datagram leaves exactly
+// once and intact: the request still gets exactly one, correct response.
+func H_C02_concsend() {
+	pc, conn := vC02Env()
+	s1 := vU32("peer_seq") & 0xffffff
+	s2 := vU32("own_seq") & 0xffffff
+	vAssume(s1 != s2)
+	req := vMarshal(message.NewHeartbeatRequest(s1, ie.NewRecoveryTimeStamp(vTS), nil))
+	own := message.NewHeartbeatRequest(s2, ie.NewRecoveryTimeStamp(vTS), nil)
+	vPreemptAtLocks(3)
+	vPreemptOn(&conn.mu)
+	var wg sync.WaitGroup
+	wg.Add(2)
+	go func() { defer wg.Done(); pc.HandlePFCPMsg(req) }()
+	go func() { defer wg.Done(); pc.SendPFCPMsg(own) }()
+	wg.Wait()
+	vJoin()
+	_, writes, _ := conn.snapshot()
+	vAssert("concurrent-senders:each-datagram-leaves-once-and-intact", vC02CheckPair(writes, s1, s2) == "")
+	vCover("concsend")
+}
+
+// R_C02_stress_concsend: native counterpart, many rounds.
+func R_C02_stress_concsend() {
+	deadline := time.Now().Add(40 * time.Second)
+	for round := 0; time.Now().Before(deadline); round++ {
+		pc, conn := vC02Env()
+		conn.jitter = true
+		s1, s2 := uint32(round&0x7fffff)+1, uint32(round&0x7fffff)+0x800000
+		req := vMarshal(message.NewHeartbeatRequest(s1, ie.NewRecoveryTimeStamp(vTS), nil))
+		own := message.NewHeartbeatRequest(s2, ie.NewRecoveryTimeStamp(vTS), nil)
+		var start, wg sync.WaitGroup
+		start.Add(1)
+		wg.Add(2)
+		go func() { defer wg.Done(); start.Wait(); pc.HandlePFCPMsg(req) }()
+		go func() { defer wg.Done(); start.Wait(); pc.SendPFCPMsg(own) }()
+		start.Done()
+		wg.Wait()
+		_, writes, _ := conn.snapshot()
+		if msg := vC02CheckPair(writes, s1, s2); msg != "" {
+			vStressFail(fmt.Sprintf("round %d: %s", round, msg))
 		}
 	}
 }
